@@ -35,3 +35,11 @@ PART["C04"] = {
             "time of the partial's round; valid partials from a corrupted member for rounds > receiver's clock round + 1 must be answered with an error. non-trivial = at least one emission per round",
     "assumptions": ["a stamp taken later than the decision can only hide an early emission; clocks are never moved while messages are in flight"],
 }
+PART["C05"] = {
+    "runs": [{"name": "beaconnet-faults", "pkg": P, "run": "^TestVF_C05", "timeout": "30m", "timeout_thorough": "120m"}],
+    "rule": W1 + "with denser fault scripts (partitions, blackouts, isolation, stops of up to all-but-one honest node, message loss) and catch-up period 0/1 s < period; after the script "
+            "everything is healed and the oracle counts logical 1-second clock steps until every running honest node's head equals the round of its own clock: bound B = 3*missed + 2n + 10 + 2*period steps "
+            "(re-tried once more slowly before a verdict), then 4 further periods must each produce their round on all nodes, and every restarted node must have emitted a partial for one of the "
+            "last 3 rounds. non-trivial = the network was at least 2 rounds behind when the faults stopped; distinct = distinct scenario",
+    "assumptions": ["liveness is decided as bounded progress in logical steps, never by wall-clock; quiescence detection only paces the clock driver"],
+}
